@@ -130,6 +130,7 @@ fn probe_all() -> String {
     s.push_str(&format!("printenv {INHERITED} || echo {INHERITED}:not-in-env\n"));
     s.push_str("declare -f f1 || echo f1:undefined\n");
     s.push_str("declare -f f_heredoc || echo f_heredoc:undefined\n");
+    s.push_str("declare -f fx || echo fx:undefined\n");
     s.push_str("declare -F | grep -c -E ' (f1|f2|f_heredoc)$'\n");
     s.push_str("alias a1 2>/dev/null || echo a1:noalias\n");
     s.push_str("alias a2 2>/dev/null || echo a2:noalias\n");
@@ -149,7 +150,7 @@ fn gen_history(seed: u64, idx: usize, steer_around_known: bool) -> History {
     let mut cfg_touched = false;
     for k in 0..n {
         let mut env: BTreeMap<String, String> = BTreeMap::new();
-        let (tag, code): (String, String) = match g.below(39) {
+        let (tag, code): (String, String) = match g.below(40) {
             0 => ("export-define".into(), format!("export VE1={}", g.value())),
             1 => ("export-modify".into(), "export VE1=\"${VE1:-none} more\"".into()),
             2 => ("export-unset".into(), "unset VE1".into()),
@@ -225,7 +226,11 @@ fn gen_history(seed: u64, idx: usize, steer_around_known: bool) -> History {
             34 => ("alias-of-alias".into(), "alias a1='echo inner'; alias a2='a1 outer'".into()),
             35 => ("dirstack-deep".into(), "pushd 'd 1' >/dev/null 2>&1; pushd ../d2 >/dev/null 2>&1; pushd inner >/dev/null 2>&1".into()),
             36 => ("func-constructs".into(), "f1() { local -a arr=(1 \"two words\"); case \"$1\" in a|b) echo ab;; *) echo \"other ${arr[1]}\";; esac; cat <<EOT\n  heredoc $1 line\nEOT\n}".into()),
-            _ => ("use".into(), "f1 arg 2>/dev/null; a1 2>/dev/null; a2 2>/dev/null; echo \"${VS1:-} ${VE1:-} ${VA1[*]:-}\"".into()),
+            37 => (
+                "func-needs-extglob".into(),
+                "shopt -s extglob\nfx() { case \"$1\" in @(yes|y)) echo Y;; !(no|n)) echo other;; esac; }".into(),
+            ),
+            _ => ("use".into(), "f1 arg 2>/dev/null; fx y 2>/dev/null; a1 2>/dev/null; a2 2>/dev/null; echo \"${VS1:-} ${VE1:-} ${VA1[*]:-}\"".into()),
         };
         let end = match g.below(12) {
             0 => format!("exit:{}", g.pick(&[0, 1, 3, 42])),
@@ -257,6 +262,13 @@ fn systematic_histories() -> Vec<History> {
         ("cd", "cd 'd 1'", "cd ../d2/inner", "cd \"$VS_BASE\""),
         ("dirstack", "pushd 'd 1' >/dev/null; pushd ../d2 >/dev/null", "pushd inner >/dev/null", "popd >/dev/null; popd >/dev/null"),
         ("inherited-modify", &"export VS_INHERITED=changed", "VS_INHERITED=\"$VS_INHERITED again\"", "true"),
+        (
+            "func-extglob",
+            "shopt -s extglob\nfx() { case \"$1\" in @(yes|y)) echo Y;; !(no|n)) echo other;; esac; }",
+            "fx yes; VS1=after-fx; cd d2",
+            "unset -f fx",
+        ),
+        ("shopt-then-var", "shopt -s nullglob dotglob; VS1=one", "shopt -u nullglob; VS1=two; alias a1='echo x'", "shopt -u dotglob"),
     ];
     let mut out = vec![];
     for (name, define, modify, unset) in classes {
@@ -734,8 +746,10 @@ fn run_c13_conformance(tier: &str, seed: u64, threads: usize) -> RealReport {
     }
     rep.runs = sample.len() as u64;
     rep.signatures = sample.iter().map(|s| format!("R|conf|{}", s.lane)).collect();
-    rep.harness_errors = Arc::try_unwrap(errs).ok().unwrap().into_inner().unwrap();
+    run_c13_verbatim_real(seed, &mut rep);
+    rep.harness_errors.extend(Arc::try_unwrap(errs).ok().unwrap().into_inner().unwrap());
     rep.coverage = serde_json::json!({
+        "verbatim_expression_cases": tricky_expressions().len() * 6,
         "conformance_scenarios": sample.len(),
         "what": "the same scenario is run simulated and with real bash (printf of the same bytes); the executor's Outputs must be identical, otherwise the stub is wrong (harness error)",
     });
@@ -811,7 +825,244 @@ fn conform_one(sc: &Scenario) -> Result<(), String> {
     }
 }
 
+// ------------------------------------------------------------------ C13: expressions run verbatim (real bash)
+
+#[derive(Clone, Debug, PartialEq, Eq, Serialize, Deserialize)]
+pub struct ExprCase {
+    pub real_history: bool,
+    pub real_expr: bool,
+    pub script_mode: bool,
+    pub exprs: Vec<String>,
+}
+
+/// shell expressions whose effect depends on their exact text up to the last byte
+fn tricky_expressions() -> Vec<&'static str> {
+    vec![
+        "echo plain",
+        "echo trailing-backslash \\",
+        "printf 'a\\nb\\n' # trailing comment",
+        "printf 'no-newline-at-end'",
+        "cat <<EOT\nheredoc line 1\n  indented $((1+1))\nEOT",
+        "cat <<'EOT'\nliteral $HOME \\ \\\\\nEOT",
+        "echo 'single quote\nspans two lines'",
+        "echo \"double quote\nspans $((2*3)) lines\"",
+        "echo first \\\n  continued",
+        "(exit 7)",
+        "echo out; echo err >&2; (exit 200)",
+        "true",
+        "false",
+        "x=5; echo $((x*2))",
+        "echo \"{persist_state} {name} {shell_expression} {excluded_variables} {state_directory}\"",
+        "echo '~~~~~~~~EXECDIVIDER' almost",
+        "f() { return 3; }; f",
+        "echo \"status was $?\"",
+        "printf '%s\\n' 'a  b' \"c\td\" e\\ f",
+        "echo one; echo two >&2; echo three",
+        "if true; then\n  echo in-if\nfi",
+        "for i in 1 2; do echo \"i=$i\"; done # done",
+        "echo 'ends with semicolon';",
+        "echo 'ends with ampersands' && true",
+        "echo $'ansi-c \\x41\\t|'",
+        "printf 'cr\\r\\nlf\\n'",
+        "echo \"tab\there\"\t",
+        "echo spaces-at-end   ",
+        ": only a colon",
+        "echo \\\\",
+    ]
+}
+
+fn run_expr_reference(expr: &str) -> Result<(Vec<u8>, Vec<u8>, i32), String> {
+    let l = layout().map_err(|e| e.to_string())?;
+    let mut child = Command::new("/bin/bash")
+        .current_dir(&l.work)
+        .env("HOME", "/nonexistent-home")
+        .stdin(Stdio::piped())
+        .stdout(Stdio::piped())
+        .stderr(Stdio::piped())
+        .spawn()
+        .map_err(|e| e.to_string())?;
+    {
+        let mut si = child.stdin.take().unwrap();
+        let text = format!("{}\n", expr);
+        std::thread::spawn(move || {
+            let _ = si.write_all(text.as_bytes());
+        });
+    }
+    let out = child.wait_with_output().map_err(|e| e.to_string())?;
+    Ok((out.stdout, out.stderr, out.status.code().unwrap_or(-1)))
+}
+
+fn compare_exprs(c: &ExprCase) -> Result<Option<String>, String> {
+    let l = layout().map_err(|e| e.to_string())?;
+    let mut env: BTreeMap<String, String> = BTreeMap::new();
+    env.insert("HOME".into(), "/nonexistent-home".into());
+    let tcs: Vec<TestCase> = c
+        .exprs
+        .iter()
+        .enumerate()
+        .map(|(i, e)| {
+            let mut config = if c.script_mode { TestCaseConfig::default_cram() } else { TestCaseConfig::default_markdown() };
+            config.environment = env.clone();
+            TestCase {
+                title: format!("e{}", i),
+                shell_expression: e.clone(),
+                expectations: vec![],
+                exit_code: None,
+                line_number: i + 1,
+                config,
+            }
+        })
+        .collect();
+    let refs: Vec<&TestCase> = tcs.iter().collect();
+    let context = ContextBuilder::default()
+        .work_directory(l.work.clone())
+        .temp_directory(l.tmp.clone())
+        .file(PathBuf::from("exprs.md"))
+        .config(DocumentConfig::default_markdown())
+        .build()
+        .map_err(|e| e.to_string())?;
+    let executor: Box<dyn Executor> = if c.script_mode {
+        Box::new(BashScriptExecutor::new(Path::new("/bin/bash")))
+    } else {
+        Box::new(StatefulExecutor::new(BashRunner::stateful_generator(Path::new("/bin/bash"))))
+    };
+    let outs = match executor.execute_all(&refs, &context) {
+        Ok(o) => o,
+        Err(e) => {
+            return Ok(Some(format!(
+                "{} mode: executing {} expression(s) failed: {}",
+                if c.script_mode { "single-script" } else { "per-process" },
+                c.exprs.len(),
+                e.to_string().lines().next().unwrap_or("")
+            )))
+        }
+    };
+    for (i, (e, o)) in c.exprs.iter().zip(outs.iter()).enumerate() {
+        let (ro, re, rc) = run_expr_reference(e)?;
+        let so: &[u8] = (&o.stdout).into();
+        let se: &[u8] = (&o.stderr).into();
+        // Markdown default: stdout and stderr apart, CR LF translated; Cram default: merged, kept
+        let (want_o, want_e): (Vec<u8>, Vec<u8>) = if c.script_mode {
+            let mut m = ro.clone();
+            // merged order is only comparable when one of the streams is empty
+            if !re.is_empty() && !ro.is_empty() {
+                continue;
+            }
+            m.extend(&re);
+            (m, vec![])
+        } else {
+            (crate::scn::transform(&ro, false), crate::scn::transform(&re, false))
+        };
+        let code = match &o.exit_code {
+            ExitStatus::Code(c) => *c,
+            _ => -999,
+        };
+        if so != &want_o[..] || se != &want_e[..] || code != rc {
+            return Ok(Some(format!(
+                "{} mode, expression #{} {:?}: recorded stdout {:?} stderr {:?} exit {}; bash given exactly this text prints stdout {:?} stderr {:?} and ends with {}",
+                if c.script_mode { "single-script" } else { "per-process" },
+                i + 1,
+                e,
+                Bytes(so.to_vec()),
+                Bytes(se.to_vec()),
+                code,
+                Bytes(want_o),
+                Bytes(want_e),
+                rc
+            )));
+        }
+    }
+    Ok(None)
+}
+
+fn run_c13_verbatim_real(seed: u64, rep: &mut RealReport) {
+    let exprs = tricky_expressions();
+    let mut g = Rng::new(seed ^ 0xe8);
+    let mut cases: Vec<ExprCase> = vec![];
+    for script_mode in [false, true] {
+        // each expression alone, first, and last in a document of three
+        for (i, e) in exprs.iter().enumerate() {
+            let e = e.to_string();
+            let other = exprs[(i + 7) % exprs.len()].to_string();
+            let third = exprs[g.below(exprs.len() as u64) as usize].to_string();
+            cases.push(ExprCase { real_history: false, real_expr: true, script_mode, exprs: vec![e.clone()] });
+            cases.push(ExprCase { real_history: false, real_expr: true, script_mode, exprs: vec![e.clone(), other.clone(), third.clone()] });
+            cases.push(ExprCase { real_history: false, real_expr: true, script_mode, exprs: vec![other, third, e] });
+        }
+    }
+    let _ = std::fs::create_dir_all(format!("{}/replays", crate::out_dir()));
+    let mut reported = 0;
+    for c in &cases {
+        rep.runs += 1;
+        rep.signatures.push(format!("R|expr|{}|{}", c.script_mode, c.exprs.join("¦")));
+        match compare_exprs(c) {
+            Err(e) => rep.harness_errors.push(format!("[real expr] {}", e)),
+            Ok(None) => {}
+            Ok(Some(detail)) => {
+                if reported >= 3 {
+                    continue;
+                }
+                // minimise: drop expressions while it still differs, then confirm twice
+                let mut best = c.clone();
+                let mut progress = true;
+                while progress && best.exprs.len() > 1 {
+                    progress = false;
+                    for k in 0..best.exprs.len() {
+                        let mut t = best.clone();
+                        t.exprs.remove(k);
+                        if matches!(compare_exprs(&t), Ok(Some(_))) {
+                            best = t;
+                            progress = true;
+                            break;
+                        }
+                    }
+                }
+                if !(matches!(compare_exprs(&best), Ok(Some(_))) && matches!(compare_exprs(&best), Ok(Some(_)))) {
+                    rep.harness_errors.push("[real expr] difference does not reproduce".into());
+                    continue;
+                }
+                println!("vsim: C13/expression-not-run-verbatim - {}", detail);
+                let text = serde_json::to_string_pretty(&best).unwrap();
+                let mut hsh = 0xcbf29ce484222325u64;
+                for ch in text.bytes() {
+                    hsh ^= ch as u64;
+                    hsh = hsh.wrapping_mul(0x100000001b3);
+                }
+                let path = format!("{}/replays/C13-expression-not-run-verbatim-{:08x}.json", crate::out_dir(), hsh as u32);
+                if std::fs::write(&path, text).is_ok() {
+                    rep.violation_replays.push(path);
+                    reported += 1;
+                }
+            }
+        }
+    }
+}
+
 pub fn replay_real(path: &str, text: &str) -> i32 {
+    if text.contains("\"real_expr\": true") {
+        let c: ExprCase = match serde_json::from_str(text) {
+            Ok(c) => c,
+            Err(e) => {
+                eprintln!("vsim: {}: {}", path, e);
+                return 2;
+            }
+        };
+        return match (compare_exprs(&c), compare_exprs(&c)) {
+            (Ok(Some(d1)), Ok(Some(_))) => {
+                println!("violation C13/expression-not-run-verbatim: {}", d1);
+                println!("VIOLATION property=C13 replay={}", path);
+                1
+            }
+            (Ok(None), Ok(None)) => {
+                println!("vsim: {} does not reproduce on this tree", path);
+                0
+            }
+            (a, b) => {
+                println!("vsim: replay of {} is not stable: {:?} / {:?}", path, a, b);
+                2
+            }
+        };
+    }
     std::env::set_var(INHERITED, "inherited-value");
     let h: History = match serde_json::from_str(text) {
         Ok(h) => h,
